@@ -248,7 +248,7 @@ def run(ctx, only=None, tier=None, fallback=None):
     maxword = 2 if quick else 3
     thin = 4 if quick else 1
     nsel = 40
-    nev = 64 if quick else 24
+    nev = 64 if quick else 12
     offset = ctx.seed % 100000
     out = None
     for attempt in range(4):
